@@ -82,6 +82,12 @@ def mod_axioms(facts):
                     ax = binop("or", binop("<=", a.a[1], C(0)), binop(">=", a.a[1], a.a[2]))
                     if ax not in facts and ax not in out:
                         out.append(ax)
+                # the same guard after `% 2^k` has been normalised to `& (2^k - 1)`
+                if is_const(b, 0) and a.k == "op" and a.a[0] == "&" and a.a[2].k == "const" and isinstance(a.a[2].a[0], int) and a.a[2].a[0] > 0 \
+                        and ((a.a[2].a[0] + 1) & a.a[2].a[0]) == 0:
+                    ax = binop("or", binop("<=", a.a[1], C(0)), binop(">=", a.a[1], C(a.a[2].a[0] + 1)))
+                    if ax not in facts and ax not in out:
+                        out.append(ax)
     return out
 
 
